@@ -67,6 +67,9 @@ pub struct Sim {
     pub node_persister: Arc<dyn Persist>,
     /// `world backup`: the main side of the composite
     pub main: Option<Arc<MainPersister>>,
+    /// fault injection: while set, writes to the (backup) store / to the main store are refused
+    pub fail_store: Arc<std::sync::atomic::AtomicBool>,
+    pub fail_main: Arc<std::sync::atomic::AtomicBool>,
 }
 
 fn services(persister: Arc<dyn Persist>, clock: Arc<ManualClock>, perm: bool) -> NodeServices {
@@ -183,9 +186,14 @@ impl Sim {
         // `world backup`: writes go to a main store first and then to the (transactional) backup store
         let main: Option<Arc<MainPersister>> =
             if first_op == "world backup" { Some(Arc::new(KVVPersister(MemoryKVVStore::new([7u8; 16]), JsonFormat))) } else { None };
+        let fail_store = Arc::new(std::sync::atomic::AtomicBool::new(false));
+        let fail_main = Arc::new(std::sync::atomic::AtomicBool::new(false));
         let node_persister: Arc<dyn Persist> = match &main {
-            Some(m) => Arc::new(vls_persist::backup_persister::BackupPersister::new(super::tap::Tap::new(m.clone()), super::tap::Tap::new(persister.clone()))),
-            None => persister.clone(),
+            Some(m) => Arc::new(vls_persist::backup_persister::BackupPersister::new(
+                super::tap::Tap::with_fail(m.clone(), fail_main.clone()),
+                super::tap::Tap::with_fail(persister.clone(), fail_store.clone()),
+            )),
+            None => Arc::new(super::tap::Tap::with_fail(persister.clone(), fail_store.clone())),
         };
         persister.enter().unwrap();
         let node = Arc::new(Node::new(config, &seed, vec![], services(node_persister.clone(), clock.clone(), perm)));
@@ -249,6 +257,8 @@ impl Sim {
             perm,
             node_persister,
             main,
+            fail_store,
+            fail_main,
         }
     }
 
@@ -711,10 +721,10 @@ impl Sim {
             if lose_main {
                 self.main = Some(Arc::new(KVVPersister(MemoryKVVStore::new([7u8; 16]), JsonFormat)));
             }
-            let tap = super::tap::Tap::new(self.main.clone().unwrap());
+            let tap = super::tap::Tap::with_fail(self.main.clone().unwrap(), self.fail_main.clone());
             tap.recovery.store(lose_main, Ordering::Relaxed);
             recovery = Some(tap.recovery.clone());
-            self.node_persister = Arc::new(vls_persist::backup_persister::BackupPersister::new(tap, super::tap::Tap::new(self.persister.clone())));
+            self.node_persister = Arc::new(vls_persist::backup_persister::BackupPersister::new(tap, super::tap::Tap::with_fail(self.persister.clone(), self.fail_store.clone())));
         }
         self.persister.enter().unwrap();
         let nodes = self.node_persister.get_nodes().unwrap();
@@ -822,6 +832,17 @@ pub fn diff_views(a: &BTreeMap<String, String>, b: &BTreeMap<String, String>) ->
 
 /// Execute one op line; returns (outcome, pending mutations reported by prepare()).
 pub fn exec_op(sim: &mut Sim, op: &str) -> (Outcome, usize) {
+    // `failw <s|m> <request…>`: the request runs while every write to the store (s) or to the main store of
+    // the composite (m) fails.  Only meaningful as the last op of a case: a signer whose store failed stops.
+    if let Some(rest) = op.strip_prefix("failw ") {
+        use std::sync::atomic::Ordering;
+        let (side, inner) = rest.split_once(' ').unwrap_or(("s", ""));
+        let flag = if side == "m" { assert!(sim.main.is_some(), "failw m outside world backup"); sim.fail_main.clone() } else { sim.fail_store.clone() };
+        flag.store(true, Ordering::Relaxed);
+        let r = exec_op(sim, inner);
+        flag.store(false, Ordering::Relaxed);
+        return r;
+    }
     let t: Vec<&str> = op.split_whitespace().collect();
     let num = |s: &str| -> i64 { s.parse().unwrap_or(0) };
     match t.as_slice() {
